@@ -101,6 +101,7 @@ func (s *State) clone() *State {
 }
 
 type Exec struct {
+	stamps bool // record the forwarding ghost (see chanRecv/chanSend)
 	boxAxioms map[string]bool
 	cntMarkAx bool
 	subFuns   []string // declared sub-object functions (embedded struct fields)
